@@ -251,7 +251,7 @@ pub fn run(case: &Value) -> Value {
             std::fs::write(d.join("package.toml"), p).unwrap();
         }
     }
-    std::fs::write(root.join("state").join("plan.json"), serde_json::to_string(&json!({"fail": case["fail"], "noise": case["noise"]})).unwrap()).unwrap();
+    std::fs::write(root.join("state").join("plan.json"), serde_json::to_string(&json!({"fail": case["fail"], "noise": case["noise"], "exit_code": case["exit_code"]})).unwrap()).unwrap();
     std::fs::write(root.join("case.json"), serde_json::to_string(&case).unwrap()).unwrap();
 
     let mut child = std::process::Command::new(std::env::current_exe().unwrap());
